@@ -20,7 +20,7 @@ def run(tier):
     r = C.tlc("JlsLinks", "JlsLinks_mc.cfg", timeout=1200)
     if not ck.add_mc("JlsLinks per-write steps MaxChunks=6", r):
         ck.violation({"where": "model", "config": "JlsLinks_mc", "invariant": r.violated})
-    P = crashcheck.crash_programs(rng, 120 if thorough else 30, thorough, "c19")
+    P = crashcheck.crash_programs(rng, 120 if thorough else 30, thorough, "c19", ck=ck)
     trace, v, nobs = crashcheck.run_crash(ck, P, "c19", {"C19"})
     ck.cov["distinct_nontrivial"] = sum(1 for l in open(trace) if l.startswith('{"e":"CrashObs"') and '"rc":0' in l)
     ck.cov["closed_files_read"] = sum(1 for l in open(trace) if l.startswith('{"e":"Unchanged"'))
